@@ -62,6 +62,11 @@ func registrationOf(client string, rd regDef) registration {
 	case clB:
 		return registration{exact: rd.exactB(), globs: rd.globsB(), optedIn: rd.bOpt, known: true}
 	}
+	for _, x := range rd.extra {
+		if x.id == client { // byte for byte: a client id is an opaque string
+			return registration{exact: x.exact, known: true}
+		}
+	}
 	return registration{}
 }
 
@@ -96,6 +101,10 @@ type caseT struct {
 	storage  string
 	router   string
 	method   string
+	// a state parameter was supplied and is the empty string (state == ""): the statement
+	// speaks of "a supplied state"; whether an empty one is appended (as "state=") or left out
+	// is open
+	emptyState bool
 }
 
 func caseOf(g func(string) string) caseT {
@@ -155,6 +164,10 @@ func expect(cs caseT) expectation {
 	default:
 		yes, exactly := reg.registered(cs.uri.val)
 		switch {
+		case yes && !isURL(cs.uri.val):
+			// registered (through a glob, whose '*' also covers control characters), but the
+			// string is not a URL a Location header could carry: the redirect is allowed, not demanded
+			e.rule, e.mayRequested = fam+":registered-but-not-a-url", true
 		case yes && (exactly || !reg.badGlobs) && h.verdict != hintOpen:
 			e.rule, e.mustRequested, e.mayRequested = fam+":registered-for-proven-client", true, true
 		case yes && h.verdict == hintOpen:
@@ -170,6 +183,12 @@ func expect(cs caseT) expectation {
 		}
 	}
 	return e
+}
+
+// isURL: net/url parses it (it refuses control characters, among others).
+func isURL(s string) bool {
+	_, err := url.Parse(s)
+	return err == nil
 }
 
 // ---------------------------------------------------------------------------
@@ -238,6 +257,15 @@ func judge(cs caseT, o observed) engine.Result {
 
 	// ---- accepted: a 3xx with a Location
 	loc, err := url.Parse(o.location)
+	if err != nil && o.location == cs.uri.val && e.mayRequested && !e.mustReject && cs.state == "" {
+		// the requested string, registered for the proven client, was handed back byte for byte;
+		// it is not a URL (control characters), so there is no query to look at
+		if len(term) != 1 {
+			return engine.Bad(e.rule, "redirect-requested-raw", "C18/wrong-session-terminated/"+R+"/"+cs.storage,
+				fmt.Sprintf("expected exactly one session termination, saw %d | %s", len(term), desc()))
+		}
+		return engine.OK(e.rule, "redirect-requested-raw")
+	}
 	if err != nil {
 		return engine.Bad(e.rule, "redirect-unparsable", "C18/redirect-to-unexpected-target/"+R+"/unparsable-location", err.Error()+" | "+desc())
 	}
@@ -293,7 +321,11 @@ func judge(cs caseT, o observed) engine.Result {
 	if cs.state != "" {
 		wantQ.Add("state", cs.state)
 	}
-	if gotQ := normQ(loc.Query()); !reflect.DeepEqual(gotQ, wantQ) {
+	gotQ := normQ(loc.Query())
+	if cs.emptyState && len(gotQ["state"]) == len(wantQ["state"])+1 && gotQ["state"][len(gotQ["state"])-1] == "" {
+		wantQ.Add("state", "") // the empty state was appended as such: unchanged
+	}
+	if !reflect.DeepEqual(gotQ, wantQ) {
 		return engine.Bad(e.rule, outcome, "C18/state-or-query-mangled/"+R+"/"+outcome,
 			fmt.Sprintf("Location query %v, expected %v | %s", gotQ, wantQ, desc()))
 	}
